@@ -302,7 +302,9 @@ def apalache_inductive(env):
     subprocess.run(["rm", "-rf", out_dir, os.path.join(d, "_apalache-out")])
     res.update(ok=ok, secs=round(time.time() - t0, 1), reused_from_cache=False,
                statement="NoLostWake: a set readiness bit of a child the scan has passed (or any set bit while parked) implies that the "
-                         "waker of the most recent poll has been invoked; N <= 5, array-style and tuple-style loops, unbounded polls / wake-ups")
+                         "waker of the most recent poll has been invoked, unless the consumer is about to poll again on its own (an item was just "
+                         "returned, or the owner just inserted into a group); N <= 5; array-style and tuple-style loops, merge / StreamGroup re-arm, "
+                         "zip's set_all_ready, group insert; unbounded polls / wake-ups")
     if ok:
         json.dump(res, open(cpath, "w"))
     return res
